@@ -37,6 +37,13 @@ func Register(addr string, h func(network, addr string) (net.Conn, error)) {
 	mu.Unlock()
 }
 
+// Handler returns the handler registered for addr (nil if none).
+func Handler(addr string) func(network, addr string) (net.Conn, error) {
+	mu.Lock()
+	defer mu.Unlock()
+	return handlers[addr]
+}
+
 // Unregister removes a handler.
 func Unregister(addr string) {
 	mu.Lock()
